@@ -239,6 +239,87 @@ def _promoted_range(fn, const):
     return None
 
 
+def check_every_byte_examined(ctx, prog, fpath, sets_):
+    """S10 (round 10, seed C02-10): the escaper can only escape the bytes it looks at.  The byte its classifier switches on
+    must be the item of an iteration over the whole input (`Iterator::next` of bytes / chars / enumerate), or - in an
+    index loop - the index must advance by exactly one per round: every definition of the index inside the loop is
+    `index + 1`, and no round passes two of them.  A variable skip ("step over the UTF-8 sequence") that overshoots by one
+    leaves the byte behind every non-ASCII character unexamined.  Idiom-bound: a correct variable skip is reported too,
+    with this text."""
+    f = prog.fn(fpath)
+    n = 0
+    for (bb, vals) in sets_:
+        g = f
+        t = g.term(bb) if bb < g.nblocks and g.term(bb)["k"] == "switch" else None
+        if t is None:
+            continue
+        n += 1
+        os_ = flow.origins(g, t["discr"])
+        by_next = [o for o in os_ if o.kind == "call" and o.call.name.endswith(("Iterator>::next", "Iterator::next"))]
+        idx_locals = set()
+        for o in os_:
+            if o.kind == "call" and "Index" in o.call.name and o.call.name.endswith("::index") and len(o.call.args) > 1:
+                for q in flow.origins(g, o.call.args[1]):
+                    if q.kind in ("bin", "arg", "const", "call"):
+                        pass
+                p_ = op_place(o.call.args[1])
+                if p_ is not None:
+                    idx_locals.add(p_["l"])
+        # a direct `bytes[i]` projection
+        pl = op_place(t["discr"])
+        for d in flow.defs(g).get(pl["l"], []) if pl is not None else []:
+            if d.kind == "stmt" and d.rv["k"] == "use":
+                q = op_place(d.rv["op"])
+                for e in (q or {}).get("p", []):
+                    if isinstance(e, dict) and "idx" in e:
+                        idx_locals.add(e["idx"])
+        if by_next and not idx_locals:
+            ctx.ob("C02.S10.escaper-examines-every-byte", "HtmlEscape|classifier@%d" % n, True, "the byte is the item of an iteration over the input", g.where(bb))
+            continue
+        ok = bool(idx_locals)
+        why = []
+        loops = [b for h, b in cfg.natural_loops(g) if bb in b]
+        body = set().union(*loops) if loops else set()
+        for l in idx_locals:
+            # follow copies back to the loop-carried variable
+            roots = set()
+            for o in flow.origins(g, l):
+                if o.kind == "bin":
+                    roots.add(o)
+            defs_in = [d for d in flow.defs(g).get(l, []) if d.bb in body]
+            carried = l
+            if not defs_in:
+                # `_idx = i` copied each round: find the local it copies
+                for d in flow.defs(g).get(l, []):
+                    if d.kind == "stmt" and d.rv["k"] == "use" and op_place(d.rv["op"]) is not None and "p" not in op_place(d.rv["op"]):
+                        carried = op_place(d.rv["op"])["l"]
+            incs = []
+            for d in flow.defs(g).get(carried, []):
+                if d.bb not in body or d.kind != "stmt":
+                    continue
+                srcs = flow.origins(g, d.rv["op"]) if d.rv["k"] == "use" else []
+                plus_one = bool(srcs) and all(o.kind == "bin" and o.rv["op"] in ("Add", "AddWithOverflow", "AddUnchecked")
+                                              and (const_int(o.rv["b"]) == 1 or const_int(o.rv["a"]) == 1) for o in srcs)
+                incs.append((d.bb, plus_one))
+            if not incs:
+                ok = False
+                why.append("the index is not advanced inside the loop")
+            if any(not p1 for _, p1 in incs):
+                ok = False
+                why.append("the index is advanced by something else than 1")
+            for (b1, _) in incs:
+                for (b2, _) in incs:
+                    if b1 != b2 and loops:
+                        hdr = [h for h, b in cfg.natural_loops(g) if bb in b][0]
+                        if b2 in cfg.reach_from(g, b1, avoid={hdr}):
+                            ok = False
+                            why.append("one round of the loop can advance the index twice")
+        ctx.ob("C02.S10.escaper-examines-every-byte", "HtmlEscape|classifier@%d" % n, ok,
+               "the classifier's byte is read at an index; " + ("; ".join(sorted(set(why))) or "the index advances by exactly one per round")
+               + " - a byte that is skipped is written out unescaped", g.where(bb))
+    return n
+
+
 def byte_sets(prog, fpath):
     """the byte classifier of a function and its closures: u8 switches [(bb, {byte values listed})] and the range
     pre-check window (lo, width).  Pre-check forms understood: `b.wrapping_sub(lo) <= w`, `(lo..=hi).contains(&b)`.
@@ -756,6 +837,9 @@ def run(ctx):
     need = set().union(*[s for _, s in nsets])
     esc = set().union(*[s for _, s in hsets])
     req = {ord(c) for c in "<>&\"'"}
+    n10_ = check_every_byte_examined(ctx, prog, "<minijinja::utils::HtmlEscape<'_> as core::fmt::Display>::fmt",
+                                     [x for x in hsets if x[0] < hf.nblocks and hf.term(x[0])["k"] == "switch" and hf.term(x[0]).get("ty") == "u8"])
+    ctx.floor("C02.S10 classifier switches of the escaper", n10_, 1)
     ctx.ob("C02.S5.escaper-covers-required-bytes", "HtmlEscape", req <= esc,
            "HtmlEscape does not escape %s" % [chr(b) for b in sorted(req - esc)], hf.loc)
     ctx.ob("C02.S5.fast-path-test-covers-escaped-bytes", "needs_html_escaping", esc <= need,
